@@ -17,6 +17,7 @@ import LA.Drive.ZipEnc
 import LA.Drive.Unicode
 import LA.Drive.Entry
 import LA.Drive.Api
+import LA.Drive.Acl
 open LA
 
 def engines : List (String × Engine) := [
@@ -36,7 +37,8 @@ def engines : List (String × Engine) := [
   ("zipenc", LA.ZipEncDrive.engine),
   ("uni", LA.Unicode.engine),
   ("ent", LA.Entry.engine),
-  ("api", LA.Api.engine)
+  ("api", LA.Api.engine),
+  ("acl", LA.Acl.engine)
 ]
 
 partial def loop (e : Engine) (h : IO.FS.Stream) (out : IO.FS.Stream) (s : e.σ) : IO Unit := do
